@@ -206,6 +206,8 @@ pub fn unions(seed: u64, n: usize, out: &str) {
         let sb: Vec<Value> = settle.as_ref().map(|v| v.iter().map(|c| bitmap(lo, hi, |d| c.is_bus_day(d))).collect()).unwrap_or_default();
         let has_settle = settle.is_some();
         let u = UnionCal::new(members, settle);
+        // the complementary question, asked of the union itself (trait method, or the Python-facing one)
+        let nonbus = if i % 2 == 0 { bitmap(lo, hi, |d| u.is_non_bus_day(d)) } else { bitmap(lo, hi, |d| cpy::union_pred(&u, "is_non_bus_day", *d).unwrap_or(false)) };
         let (bus, stl) = if i % 3 == 2 {
             // the Python-facing class's own predicates
             (bitmap(lo, hi, |d| cpy::union_pred(&u, "is_bus_day", *d).unwrap_or(false)), bitmap(lo, hi, |d| cpy::union_pred(&u, "is_settlement", *d).unwrap_or(false)))
@@ -215,7 +217,7 @@ pub fn unions(seed: u64, n: usize, out: &str) {
             let t = CalType::UnionCal(u);
             (bitmap(lo, hi, |d| t.is_bus_day(d)), bitmap(lo, hi, |d| t.is_settlement(d)))
         };
-        o.emit(&json!({"op":"union","key":format!("union/{}", i),"w0":lo,"n":hi-lo+1,"members":mb,"settle":sb,"has_settle":has_settle,"bus":bus,"stl":stl}));
+        o.emit(&json!({"op":"union","key":format!("union/{}", i),"w0":lo,"n":hi-lo+1,"members":mb,"settle":sb,"has_settle":has_settle,"bus":bus,"stl":stl,"nonbus":nonbus}));
     }
     eprintln!("named unions: {} events", o.finish());
 }
